@@ -1,11 +1,22 @@
 /-
-The NeoVM model (C12, C13): one machine.
-  Vm/Num.lean      integer semantics from mathematics (range, two's complement codec, division,
-                   shifts, sqrt, modular arithmetic, bitwise)
-  Vm/Item.lean     stack items, heap of reference objects, conversions, equality, clone, CONVERT
-  Vm/Ops.lean      `Op`, `execPure`: every instruction over (evaluation stack, heap)
-  Vm/Machine.lean  decoding, frames / call contexts / slots / try stacks, exceptions, gas,
-                   `exec`, `step`, `run`, the reference count `reach`
+The NeoVM model (C12, C13): one machine, the independent executable specification of NeoVM.
+  Vm/Num.lean      integer semantics from mathematics: `Int256` (an `Int` with its range proof),
+                   `checkInt`, two's complement codec, truncated division, floor shift, integer
+                   square root, modular power / inverse, 256-bit bitwise operations
+  Vm/Item.lean     stack items, heap of reference objects (Buffer/Array/Struct/Map), TryBool /
+                   TryInteger / TryBytes, EQUAL with its budgets, Struct.Clone, CONVERT, map keys,
+                   UTF-8 validity, the checked conversions of stackitem/conversion.go
+  Vm/Ops.lean      `Op`, `execPure`: every instruction over (evaluation stack, heap), result =
+                   next state | catchable exception | FAULT
+  Vm/Machine.lean  decoding (`Op.ofByte`, operand layout, `decode`), frames (loaded scripts) with
+                   call contexts (CALL*), slots, try stacks, `handleException` (`Vm.raise`), gas,
+                   `exec`, `step`, `run`, the reference count of the specification `reach`
+
+API: `Vm.load prog args gasLimit`, `step cfg v`, `run cfg fuel v`, `Cfg.price`, `Vm.estack`,
+`Vm.depth`, `reach v`. Evaluation stacks are lists with the top at the head. A FAULT is
+`state = .fault` (message in `faultMsg`, informational). SYSCALL / CALLT fault (no handler).
+Not modelled: the implementation's incremental item counter (C12 adds it on top); the model
+faults when `reach > MaxStackSize`.
 -/
 import NeoModel.Model.Vm.Num
 import NeoModel.Model.Vm.Item
